@@ -2147,8 +2147,17 @@ func (r *Runner) textposDescription() string {
 // at the specified index is a boundary or not. It's just not worth
 // emitting inline code for this logic.
 func (r *Runner) IsBoundary(index int) bool {
+	if r.re != nil && r.re.options&RE2 != 0 {
+		// in RE2 mode \w is ASCII-only and \b, \B are defined in terms of \w
+		return (index > 0 && isRE2WordChar(r.Runtext[index-1])) !=
+			(index < r.Runtextend && isRE2WordChar(r.Runtext[index]))
+	}
 	return (index > 0 && syntax.IsWordChar(r.Runtext[index-1])) !=
 		(index < r.Runtextend && syntax.IsWordChar(r.Runtext[index]))
+}
+
+func isRE2WordChar(ch rune) bool {
+	return 'A' <= ch && ch <= 'Z' || 'a' <= ch && ch <= 'z' || '0' <= ch && ch <= '9' || ch == '_'
 }
 
 func (r *Runner) IsECMABoundary(index int) bool {
